@@ -85,6 +85,8 @@ class C06(PropBase):
         cfg = gen.Cfg.for_tier(tier)
         sw = hist.swarm(rng, FAULTS)
         world, view = gen.gen_world(rng, cfg)
+        world["modules"][0]["decls"].append({"d": "raw", "n": "VwPlainE", "src": (
+            "class VwPlainE(enum.Enum):\n    ONE = 1\n    A = 'a'\n    YES = True\n    TEXT1 = '1'\n    ZERO = 0\n    EMPTY = ''\n    NOTHING = None\n")})
         lk = view.lookup()
         mods = [m["name"] for m in world["modules"]]
         env = self.base_env(rng, fault_free=not sw)
@@ -125,6 +127,16 @@ class C06(PropBase):
             if fk and steps and r < 0.15:
                 steps.append(hist.fault_step(rng, rng.choice(fk), steps))
                 continue
+            if r < 0.03:
+                # a member of a plain Enum (no mix-in: it does not equal its value) whose value is a declared member:
+                # not a member, so it is refused
+                lit = gen.gen_literal(rng)
+                by_value = {("int", 1): "ONE", ("str", "a"): "A", ("bool", True): "YES", ("str", "1"): "TEXT1", ("int", 0): "ZERO", ("str", ""): "EMPTY",
+                            ("NoneType", None): "NOTHING"}
+                names = [by_value[(type(m).__name__, m)] for m in lit["v"] if (type(m).__name__, m) in by_value]
+                if names:
+                    steps.append({"op": "marshal", "t": lit, "v": {"$enum": [f"{mods[0]}.VwPlainE", rng.choice(names)]}, "mod": rng.choice(mods), "nonmember": True})
+                    continue
             if r < 0.08:
                 lit = gen.gen_literal(rng)
                 bad = rng.choice([9, "zz", {"$f": "2.5"}, None, True, "1", 1, 0, "", False,
